@@ -579,7 +579,7 @@ Lemma trace_sub_generic2 : forall cfg t0 sel (Q : list (event * list (nat * wref
   (forall pfx eh m pre, good cfg t0 (pfx ++ [eh]) -> Q (pfx ++ [eh]) -> ~ panicked (snd (run (init cfg t0) (pfx ++ [eh]))) -> Inv pfx m pre ->
      let s := fst (run (init cfg t0) pfx) in let o := snd (step s eh) in let d := observe (fst (step s eh)) in
      forallb (fun i => String.eqb (nth i (p_components cfg t0 m pre (fst eh) o d) ""%string) "") sel = true /\
-     Inv (pfx ++ [eh]) (pm_final cfg d (fst eh) o m) d) ->
+     Inv (pfx ++ [eh]) (pm_final cfg pre d (fst eh) o m) d) ->
   forall evs pfx m pre, good cfg t0 (pfx ++ evs) -> Q (pfx ++ evs) -> ~ panicked (snd (run (init cfg t0) pfx)) -> Inv pfx m pre ->
   panicked (snd (run (fst (run (init cfg t0) pfx)) evs)) \/
   trace_sub_from sel cfg t0 m pre (model_trace_from (fst (run (init cfg t0) pfx)) evs) = true.
@@ -636,9 +636,9 @@ Proof.
   intros [m err] x H. cbn [fst] in *. destruct x; try exact H. destruct d; try exact H.
   destruct (find _ _) as [[c' w]|]; [|exact H]. destruct (find_dworker _ _ _) as [k|]; [|exact H]. destruct (dw_task k); exact H.
 Qed.
-Lemma pm_final_learners : forall cfg d e o m,
-  m_learners (pm_final cfg d e o m) = fst (fold_left c07_ghost o (sel_learners e o (m_learners m), ""%string)).
-Proof. intros cfg d e o m. unfold pm_final. rewrite retry_fold_learners. unfold pm3. rewrite c02_fold_learners. unfold pm2. cbn [m_learners set]. rewrite pm1_learners. reflexivity. Qed.
+Lemma pm_final_learners : forall cfg pre d e o m,
+  m_learners (pm_final cfg pre d e o m) = fst (fold_left c07_ghost o (sel_learners e o (m_learners m), ""%string)).
+Proof. intros cfg pre d e o m. unfold pm_final. rewrite retry_fold_learners. rewrite pm_clear_eq. cbn [m_learners set]. unfold pm3. rewrite c02_fold_learners. unfold pm2. cbn [m_learners set]. rewrite pm1_learners. reflexivity. Qed.
 Lemma pc_learn_eq : forall e o m, pc_learn e o m = snd (fold_left c07_ghost o (sel_learners e o (m_learners m), ""%string)).
 Proof. intros e o m. unfold pc_learn. rewrite pm1_learners. reflexivity. Qed.
 
@@ -659,11 +659,11 @@ Proof. intros. unfold all_ids. rewrite flat_map_app. cbn. rewrite app_nil_r. ref
 Lemma LN2_run : forall cfg t0 evs, LN2 (fst (run (init cfg t0) evs)).
 Proof. intros. apply (run_fst_snoc evs (init cfg t0) LN2); [intros; apply LN2_step; assumption|apply LN2_init]. Qed.
 
-Lemma InvL_step : forall cfg t0 pfx eh m d, learner_ids_unique (pfx ++ [eh]) -> InvL cfg t0 pfx m ->
+Lemma InvL_step : forall cfg t0 pfx eh m pre d, learner_ids_unique (pfx ++ [eh]) -> InvL cfg t0 pfx m ->
   let s := fst (run (init cfg t0) pfx) in
-  pc_learn (fst eh) (snd (step s eh)) m = ""%string /\ InvL cfg t0 (pfx ++ [eh]) (pm_final cfg d (fst eh) (snd (step s eh)) m).
+  pc_learn (fst eh) (snd (step s eh)) m = ""%string /\ InvL cfg t0 (pfx ++ [eh]) (pm_final cfg pre d (fst eh) (snd (step s eh)) m).
 Proof.
-  intros cfg t0 pfx [e h] m d Hu [A [B [C D]]] s. cbn [fst]. unfold learner_ids_unique in Hu. rewrite all_ids_snoc in Hu. cbn [fst] in Hu.
+  intros cfg t0 pfx [e h] m pre d Hu [A [B [C D]]] s. cbn [fst]. unfold learner_ids_unique in Hu. rewrite all_ids_snoc in Hu. cbn [fst] in Hu.
   set (L := m_learners m) in *.
   assert (HK : forall F, NoDup F -> (forall x, In x F -> ~ In x (live_ids L) /\ ~ In x (ev_ids e)) -> LOK L (ev_ids e ++ F)).
   { intros F HF Hd. split; [exact A|]. apply NoDup_app_intro; [exact B| |].
@@ -690,7 +690,7 @@ Proof.
   apply (trace_sub_generic2 cfg t0 [16%nat] learner_ids_unique (fun pfx m _ => InvL cfg t0 pfx m) learner_ids_unique_prefix) with (pfx := []) (m := mon0) (pre := empty_dump);
     [|split; [exact Hsel|split; assumption]|exact Hu|intros [o [what [[] _]]]|].
   - intros pfx eh m pre Hg Hq Hnp HI. cbv zeta.
-    destruct (InvL_step cfg t0 pfx eh m (observe (fst (step (fst (run (init cfg t0) pfx)) eh))) Hq HI) as [E HI'].
+    destruct (InvL_step cfg t0 pfx eh m pre (observe (fst (step (fst (run (init cfg t0) pfx)) eh))) Hq HI) as [E HI'].
     split; [|exact HI']. cbn [forallb]. rewrite andb_true_r. apply String.eqb_eq. unfold p_components. cbv zeta. cbn [nth]. exact E.
   - split; [intros i x []|split; [constructor|split; [intros x []|]]]. cbn. unfold task_learners, init. cbn. apply perm_nil.
 Qed.
